@@ -44,7 +44,8 @@ LEVEL = "model_checking"
 ENGINE = "E3-SCHED"
 SHARDS = {"quick": 8, "thorough": 16}
 RULE = (
-    "(a) all schedules (preemption bound 2; env events cost 1 in quick, 0 in thorough) of 2-3 borrower threads doing "
+    "(a) all schedules (preemption bound 1-2 quick, 1-3 thorough; environment events cost one preemption, none in the "
+    "thorough env_cost=0 configurations) of 2-3 borrower threads doing "
     "1-2 `with pool.connect(cmd)` cycles over commands {A,B} against a real WorkerPool(max_idle in {0,1,2}) plus "
     "optional reaper tick (+ clock advance past idle_timeout), pool.close() and a worker-dies event; line-level "
     "scheduling points inside the pool methods; non-trivial = schedule with >=1 choice point. "
@@ -54,7 +55,7 @@ RULE = (
 )
 TECHNIQUE = (
     "stateless model checking of the real WorkerPool under a controlled thread scheduler (preemption-bounded, "
-    "line-granular) with step invariants; exhaustive borrower-script enumeration against a real RpcServer for the "
+    "line-granular in the traced configurations) with step invariants; exhaustive borrower-script enumeration against a real RpcServer for the "
     "message-boundary clause"
 )
 LEVEL_TEXT = (
@@ -66,7 +67,7 @@ LEVEL_TEXT = (
 LEVEL_NOTE = (
     "Granularity is one source line inside the pool methods; the subprocess is a fake (pid/poll/close) in (a) and "
     "an in-process RpcServer thread over an in-memory pipe in (b); OS process semantics are trusted. Bounds: 2-3 "
-    "borrowers, <=2 cycles each, 2 commands, max_idle 0..2, preemption bound 2."
+    "borrowers, <=2 cycles each, 2 commands, max_idle 0..2, preemption bound 1-3 as listed per configuration."
 )
 ASSUMPTIONS = [
     "scheduling granularity is one source line inside WorkerPool/_PooledTransport methods (bytecode-level races inside a line are not explored)",
@@ -353,11 +354,12 @@ def oracle_a(ctx: Ctx, cfg: dict[str, Any], x: S.Exec, tier: str) -> Any:
 
 def configs_a(ctx: Ctx) -> list[dict[str, Any]]:
     """Deterministic list of harness configurations.  ``trace``: line-level points inside the pool methods (else only
-    the lock / poll / spawn / close / clock operations are scheduling points)."""
+    the lock / poll / spawn / close / clock operations are scheduling points); ``env_cost``: preemption cost of
+    switching to an environment event (clock advance, worker death) while the running task could continue."""
     out: list[dict[str, Any]] = []
 
-    def add(mi: int, progs: list[list[str]], bound: int = 2, trace: bool = False, **kw: Any) -> None:
-        out.append({"max_idle": mi, "progs": progs, "bound": bound, "trace": trace, **kw})
+    def add(mi: int, progs: list[list[str]], bound: int = 2, trace: bool = False, env_cost: int = 1, **kw: Any) -> None:
+        out.append({"max_idle": mi, "progs": progs, "bound": bound, "trace": trace, "env_cost": env_cost, **kw})
 
     two = [[["A"], ["A"]], [["A", "A"], ["A"]], [["A"], ["B"]], [["A", "B"], ["A"]]]
     three = [[["A"], ["A"], ["A"]], [["A"], ["A"], ["B"]]]
@@ -365,7 +367,7 @@ def configs_a(ctx: Ctx) -> list[dict[str, Any]]:
         for mi in (0, 1, 2):
             add(mi, two[0])
             add(mi, two[1])
-            add(mi, two[0], reap=True)
+            add(mi, two[0], bound=1, reap=True)
             add(mi, two[1], bound=1, reap=True)
             add(mi, two[0], close=True)
             add(mi, two[1], die=0)
@@ -384,25 +386,31 @@ def configs_a(ctx: Ctx) -> list[dict[str, Any]]:
         add(1, two[1], bound=1, trace=True, die=0)
         return out
     for mi in (0, 1, 2):
-        for p in two:
-            add(mi, p, bound=3)
-            add(mi, p, reap=True)
-            add(mi, p, close=True)
-            add(mi, p, die=0)
-        add(mi, two[1], reap=True, close=True)
-        add(mi, two[1], close=True, die=0)
-        for p in three:
-            add(mi, p)
-            add(mi, p, bound=1, close=True, reap=True)
+        add(mi, two[0], bound=3)
+        add(mi, two[1], bound=3)
+        add(mi, two[2], bound=3)
+        add(mi, two[3])
+        add(mi, two[0], bound=1, reap=True, env_cost=0)
+        add(mi, two[1], bound=1, reap=True)
+        add(mi, two[3], bound=1, reap=True)
+        add(mi, two[0], close=True)
+        add(mi, two[1], close=True)
+        add(mi, two[0], die=0, env_cost=0)
+        add(mi, two[1], die=0)
+        add(mi, two[1], bound=1, reap=True, close=True)
+        add(mi, two[1], bound=1, close=True, die=0)
+        add(mi, three[0])
+        add(mi, three[1])
+        add(mi, three[0], bound=1, close=True)
         add(mi, [["A", "A"], ["A"], ["A"]], bound=1, close=True)
         # line-granular
         add(mi, two[0], bound=2, trace=True)
         add(mi, two[2], bound=2, trace=True)
-        add(mi, two[0], bound=1, trace=True, close=True)
         add(mi, two[1], bound=1, trace=True)
+        add(mi, two[0], bound=1, trace=True, close=True)
+        add(mi, two[3], bound=1, trace=True, close=True)
         add(mi, two[1], bound=1, trace=True, reap=True)
         add(mi, two[1], bound=1, trace=True, die=0)
-        add(mi, two[3], bound=1, trace=True, close=True)
     return out
 
 
@@ -414,7 +422,7 @@ def run_a(ctx: Ctx) -> None:
             st = S.explore(
                 ctx, make_setup(cfg), lambda x, cfg=cfg: oracle_a(ctx, cfg, x, ctx.tier), bound=cfg["bound"],
                 label="a:" + json.dumps(cfg, sort_keys=True), trace=TRACE if cfg["trace"] else None,
-                env_cost=1 if ctx.quick else 0, max_execs=_DEV_CAP,
+                env_cost=cfg["env_cost"], max_execs=_DEV_CAP,
             )
             ctx.extra["a_schedules"] += st["schedules"]
             ctx.extra["a_configs"] += 1
@@ -726,8 +734,7 @@ def replay(ctx: Ctx, case: dict[str, Any]) -> None:
     if case.get("part") == "a":
         cfg = case["cfg"]
         with bound_pool_a():
-            x = S.run_one(make_setup(cfg), case["choices"], None, trace=TRACE if cfg.get("trace") else None,
-                          env_cost=1 if case.get("tier", "quick") == "quick" else 0)
+            x = S.run_one(make_setup(cfg), case["choices"], None, trace=TRACE if cfg.get("trace") else None, env_cost=cfg.get("env_cost", 1))
             oracle_a(ctx, cfg, x, case.get("tier", "quick"))
     else:
         ctx.extra.update({"b_cases": 0, "b_reused": 0, "b_discarded": 0})
